@@ -312,6 +312,19 @@ def check_case(ctx, case):
                     names = ddf2.map_partitions(lambda p_: pd.Series([p_.geometry.name]),
                                                 meta=pd.Series([""])).compute().tolist()
                     new = ddf2.compute()
+                    # two frames over the same dataset with different active geometries,
+                    # materialised in ONE compute, must not influence each other
+                    others = [c for c in cands if c != a2]
+                    if others:
+                        r1, r3 = read_parquet_dask(path, geometry=a2), read_parquet_dask(path, geometry=others[0])
+                        c1, c3 = dask.compute(r1, r3)
+                        n1 = [c1.geometry.name if c1._has_valid_geometry() else None,
+                              c3.geometry.name if c3._has_valid_geometry() else None]
+                        ctx.count("state_checks")
+                        ctx.sig("parquet-joint-compute")
+                        if n1 != [a2, others[0]]:
+                            viol("active-changed", "active-geometry:read_parquet_dask-joint-compute",
+                                 [a2, others[0]], n1)
                 import shutil
                 shutil.rmtree(path, ignore_errors=True)
                 ctx.count("state_checks")
